@@ -10,11 +10,11 @@ from .core import MachineryFailure, REPO
 _counter = [0]
 
 
-def generate(lang, root_ns_dir, out_dir, language_options=None, omit=False, lookup=None):
+def generate(lang, root_ns_dir, out_dir, language_options=None, omit=False, lookup=None, allow_unregulated=False):
     import nunavut
 
     nunavut.generate_types(lang, root_ns_dir, out_dir, omit_serialization_support=omit, language_options=language_options or {},
-                           include_experimental_languages=True, lookup_directories=lookup)
+                           include_experimental_languages=True, lookup_directories=lookup, allow_unregulated_fixed_port_id=allow_unregulated)
 
 
 class PyTarget:
